@@ -16,6 +16,11 @@ Inductive case :=
 (* the same as CNat in a given chain state: hf = the hard-forks enabled (table of that hard-fork), wl = fee-whitelist
    state of the called method (0 not whitelisted, 1 whitelisted with fee 0, 2 whitelisted with a positive fee) *)
 | CNatSt (hf wl : N) (contract method : string) (arity f : N) (gate_ok w n c : bool)
+(* a deployed contract loaded with permissions [loaded] changes itself (update -> [current] = Some new permissions,
+   destroy -> None, nothing / deploying another contract -> Some loaded) and then, in the same context, calls method m
+   (safe or not) of callee c by System.Contract.Call or CALLT.  ran = the callee's code ran *)
+| CSelfCall (domovoi : bool) (loaded : list permission) (current : option (list permission))
+            (c : callee) (m : string) (safe : bool) (ran : bool)
 (* a call into a contract blocked by Policy: ran = the blocked contract's code ran *)
 | CBlocked (ran : bool)
 (* a chain of calls: each hop (requested flags, kind) with kind 0 = non-safe forwarding method, 1 = forwarding method
@@ -97,6 +102,17 @@ Definition check_case (cs : case) : N :=
                        imp (negb gate_ok) (negb (w || n || c)) in
           code3 model spec
       end
+  | CSelfCall domovoi loaded current c m safe ran =>
+      let model := Bool.eqb ran (call_gate domovoi safe true loaded current c m) in
+      (* specification: from Domovoi on the loaded manifest decides and the check is never skipped; before it the
+         current manifest decides; a contract missing from ContractManagement before Domovoi is history, not judged *)
+      let spec :=
+        if domovoi then Bool.eqb ran (safe || may_callb loaded c m)
+        else match current with
+             | Some ps => Bool.eqb ran (safe || may_callb ps c m)
+             | None => true
+             end in
+      code3 model spec
   | CBlocked ran => if ran then 2 else 0
   | CChain hops ff final completed w n c =>
       let finstr :=
